@@ -327,7 +327,11 @@ func (cmd *mainCmd) Run(args []string) error {
 				errors = append(errors, fmt.Errorf("reformat %q: %w", filename, err))
 				continue
 			}
-
+		} else if _, err := parser.ParseFile(token.NewFileSet(), filename, bs, parser.AllErrors); err != nil {
+			// imports.Process rejects output that does not parse;
+			// do the same when it is skipped.
+			errors = append(errors, fmt.Errorf("reformat %q: %w", filename, err))
+			continue
 		}
 
 		switch {
